@@ -95,10 +95,6 @@ var expectedRefactorAlarms = map[string]string{
 	// an anchor function is inlined into its callers and deleted: the rules that speak about it cannot be decided
 	"U04-1": "inline of (*unorderedTxs).endTx", "U05-1": "inline of (*unorderedTxs).breakAll", "U06-1": "inline of applySeqNoAndEnqueue",
 	"U08-1": "inline of fileSystem.file/spoolFile", "U09-1": "inline of clearSignalChan",
-	// an anchor function is split so that one of its loops moves into a new function: loop bodies inside
-	// callees expanded in place are traversed acyclically only
-	"U03-2": "readSlices split around its packet loop", "U04-3": "onSUBACK split around its validation loop",
-	"U05-3": "subscribeLevel split around its filter loops", "U07-2": "tail of AdoptSession moved into three functions",
 	// a switch replaced by a table lookup: exhaustiveness and guards are decided on comparisons, not on table contents
 	"U03-5": "forbidden packet types looked up in an array", "U07-5": "identifier space looked up in a map",
 	// a known function changes its signature (parameters bundled in a new struct)
